@@ -84,6 +84,12 @@ def delay_body(kind, spec, tm, now):
         ok = ok and (then.year, then.month, then.day) == tuple(spec)
     rt.require(ok, f'delay:{kind}:match', f'now={now} spec={spec} time={tm}: now+delay={then} does not match the moment')
     if kind in PERIOD_DAYS:
+        day = _ClockModule.NOW.date()
+        while day < then.date():
+            hit = day.day == spec if kind == 'dom' else day.isoweekday() - 1 == spec
+            rt.require(not hit, f'delay:{kind}:skips-occurrence',
+                       f'now={now} spec={spec} time={tm}: designated {then} although {day} already matches the moment')
+            day += datetime.timedelta(days=1)
         lim = PERIOD_DAYS[kind](spec)
         rt.require(td <= datetime.timedelta(days=lim), f'delay:{kind}:period',
                    f'now={now} spec={spec} time={tm}: delay {td} is more than one period ({lim} d) ahead')
@@ -150,6 +156,17 @@ def e2_clause(kind, clause):
             else:
                 lim = 7 if kind == 'dow' else z3.If(v['dom'] <= 28, 31, 62)
                 queries.append((f'delay:{kind}:period', pc + [td.us > lim * D.DAY_US], 'return'))
+    elif clause == 'next':
+        # the designated day is the EARLIEST matching calendar day from today on:
+        # no occurrence of the moment is skipped
+        for pc, td in res.returns:
+            (ry, rm, rd, rus), defs = _result_fields(v, td)
+            qy, qm, qd = z3.Ints('qy qm qd')
+            today = D.days_from_civil(v['Y'], v['M'], v['D'])
+            q = D.days_from_civil(qy, qm, qd)
+            match = qd == v['dom'] if kind == 'dom' else (q + 3) % 7 == v['dow']
+            queries.append((f'delay:{kind}:skips-occurrence',
+                            pc + defs + [D.valid_date(qy, qm, qd), match, today <= q, q < D.days_from_civil(ry, rm, rd)], 'return'))
     elif clause == 'boot':
         bb = v['booted_before']
         for pc, td in res.returns:
@@ -349,6 +366,7 @@ INFO = {
         'translator validated against the real _delay on >=2000 concrete inputs on every run',
         'Python int -> z3 Int (no wrap-around); moments restricted to what dawgie.schedule / compliant rule_10 accept',
         '"one period" = 7 days (dow), 31 days (dom<=28), 62 days (dom 29..31: months lacking the day are skipped); negative delays (moment earlier today) are accepted because defer() fires them at once',
+        'clause next: the designated day is the earliest calendar day from today on that matches the moment (no occurrence is skipped) - the reading of "no further than one period ahead" that also makes "fires again each period" possible',
     ],
     'outside': ['clock instants outside 1970-2100', 'time zones other than UTC (the code uses UTC only)'],
 }
@@ -356,7 +374,7 @@ INFO = {
 
 def obligations(tier):
     out = [{'name': 'e2-selfcheck', 'group': 'e2', 'kind': 'call', 'call': 'vp.harness.c20:e2_selfcheck', 'timeout': 600}]
-    for kind, clauses in (('dom', ('valid', 'match', 'period')), ('dow', ('valid', 'match', 'period')), ('day', ('valid', 'match')), ('boot', ('boot',))):
+    for kind, clauses in (('dom', ('valid', 'match', 'period', 'next')), ('dow', ('valid', 'match', 'period', 'next')), ('day', ('valid', 'match')), ('boot', ('boot',))):
         for cl in clauses:
             out.append({'name': f'e2-{kind}-{cl}', 'group': 'e2', 'kind': 'call', 'call': 'vp.harness.c20:e2_clause',
                         'kwargs': {'kind': kind, 'clause': cl}, 'timeout': 900})
